@@ -40,7 +40,7 @@ CALC_GROUPS = {"neutron_sld": ["neutron"], "neutron_sld_iso": ["neutron"], "xray
 COVERED = {("E1", n) for n in ["neutron", "K_alpha", "K_beta1", "covalent_radius", "covalent_radius_uncertainty",
                                "crystal_structure", "magnetic_ff"]} \
     | {("I11", "neutron"), ("I11", "neutron_activation"), ("En", "covalent_radius")}
-PRIV_PREFIX = lambda T: [["new", T], ["init", "mass.init", T], ["init", "density.init", T]]
+PRIV_PREFIX = lambda T: [["new", T], ["init", "density.init", T]]     # "new" = PeriodicTable(T); mass.init(T)
 
 
 def child_env():
@@ -170,7 +170,7 @@ def text_event(ev):
     if k == "init":
         return "%s(%s)" % (ev[1], PY_TABLE[ev[2]])
     if k == "new":
-        return "%s = PeriodicTable('%s')" % (ev[1], ev[1])
+        return "%s = PeriodicTable('%s'); mass.init(%s)" % (ev[1], ev[1], ev[1])
     if k == "parse":
         return "formula('Fe2O3', table=%s)" % PY_TABLE[ev[1]]
     if k == "pickle":
@@ -206,26 +206,31 @@ def closing_reads(tables=("pub",), atoms=("E1", "E0", "I11")):
 
 # ------------------------------------------------------------------ minimisation of a failing history
 
-def minimise(events, fails):
-    """events[-1] is the failing observation; `fails(history) -> bool` re-runs a candidate.  Greedy one-by-one
-    removal to a 1-minimal history that still fails at its last event."""
+def well_formed(cand):
+    """a table must exist before it is used"""
+    made = {"pub"}
+    for e in cand:
+        if e[0] == "new":
+            made.add(e[1])
+        else:
+            T = e[1] if e[0] in ("read", "has", "set", "mut", "parse", "pickle") else (e[2] if e[0] in ("calc", "init") else "pub")
+            if T not in made:
+                return False
+    return True
+
+
+def minimise(events, fails_many):
+    """events[-1] is the failing observation; `fails_many(list of histories) -> list of bool` re-runs candidates
+    (in parallel).  Removal of single events to a 1-minimal history that still fails the same way at its last
+    event."""
     cur = list(events)
-    changed = True
-    while changed:
-        changed = False
-        for i in range(len(cur) - 1):
-            cand = cur[:i] + cur[i + 1:]
-            # a table must exist before it is used
-            ok, made = True, {"pub"}
-            for e in cand:
-                if e[0] == "new":
-                    made.add(e[1])
-                else:
-                    T = e[1] if e[0] in ("read", "has", "set", "mut", "parse", "pickle") else (e[2] if e[0] in ("calc", "init") else "pub")
-                    if T not in made:
-                        ok = False
-            if ok and fails(cand):
-                cur = cand
-                changed = True
-                break
-    return cur
+    while True:
+        cands = [cur[:i] + cur[i + 1:] for i in range(len(cur) - 1)]
+        cands = [c for c in cands if well_formed(c)]
+        if not cands:
+            return cur
+        res = fails_many(cands)
+        hit = [c for c, r in zip(cands, res) if r]
+        if not hit:
+            return cur
+        cur = hit[0]
